@@ -1,7 +1,130 @@
 package main
 
+import (
+	"fmt"
+	"os"
+)
+
+// pair of operands for a binary operation
+func (g *G) pair() (dec, dec) {
+	x := g.decimal()
+	var y dec
+	if g.chance(0.7) {
+		y = g.related(x)
+	} else {
+		y = g.decimal()
+	}
+	if g.chance(0.5) {
+		return y, x
+	}
+	return x, y
+}
+
+func (g *G) finitePair() (dec, dec) {
+	x := g.finite()
+	var y dec
+	if g.chance(0.8) {
+		y = g.related(x)
+	} else {
+		y = g.finite()
+	}
+	if g.chance(0.5) {
+		return y, x
+	}
+	return x, y
+}
+
+func (g *G) drm() uint8 {
+	if g.chance(0.5) {
+		return 0
+	}
+	return g.mode()
+}
+
+func propC01(g *G, n int) {
+	for i := 0; i < n; i++ {
+		x, y := g.finitePair()
+		if g.chance(0.1) {
+			x, y = g.pair()
+		}
+		m := sU64(uint64(g.mode()))
+		emit(g.drm(), "Decimal.AddWithMode", []string{x.String(), y.String(), m})
+		emit(g.drm(), "Decimal.SubWithMode", []string{x.String(), y.String(), m})
+		if i%4 == 0 {
+			emit(g.drm(), "Decimal.Add", []string{x.String(), y.String()})
+			emit(g.drm(), "Decimal.Sub", []string{x.String(), y.String()})
+		}
+	}
+}
+
+func propC02(g *G, n int) {
+	for i := 0; i < n; i++ {
+		x, y := g.finitePair()
+		if g.chance(0.1) {
+			x, y = g.pair()
+		}
+		m := sU64(uint64(g.mode()))
+		emit(g.drm(), "Decimal.MulWithMode", []string{x.String(), y.String(), m})
+		emit(g.drm(), "Decimal.QuoWithMode", []string{x.String(), y.String(), m})
+		if i%4 == 0 {
+			emit(g.drm(), "Decimal.Mul", []string{x.String(), y.String()})
+			emit(g.drm(), "Decimal.Quo", []string{x.String(), y.String()})
+		}
+	}
+}
+
+func propC03(g *G, n int) {
+	for i := 0; i < n; i++ {
+		x, y := g.finitePair()
+		if g.chance(0.1) {
+			x, y = g.pair()
+		}
+		m := sU64(uint64(g.mode()))
+		emit(g.drm(), "Decimal.QuoRemWithMode", []string{x.String(), y.String(), m})
+		if i%4 == 0 {
+			emit(g.drm(), "Decimal.QuoRem", []string{x.String(), y.String()})
+		}
+	}
+}
+
+func propC04(g *G, n int) {
+	for i := 0; i < n; i++ {
+		x, y := g.pair()
+		a := []string{x.String(), y.String()}
+		emit(0, "Decimal.Cmp", a)
+		emit(0, "Decimal.CmpAbs", a)
+		emit(0, "Decimal.Equal", a)
+		emit(0, "Compare", a)
+		emit(0, "Min", a)
+		emit(0, "Max", a)
+		emit(0, "Decimal.IsZero", a[:1])
+		emit(0, "Decimal.Sign", a[:1])
+		if i%8 == 0 {
+			// every cohort member of x against every cohort member of y
+			cx, cy := cohort(x), cohort(y)
+			for _, p := range cx {
+				q := cy[g.pick(len(cy))]
+				emit(0, "Decimal.Cmp", []string{p.String(), q.String()})
+				emit(0, "Decimal.Equal", []string{p.String(), x.String()})
+			}
+		}
+	}
+}
+
+var props = map[string]func(*G, int){
+	"C01": propC01,
+	"C02": propC02,
+	"C03": propC03,
+	"C04": propC04,
+}
+
 func propMode(g *G, prop string, n int) {
-	panic("prop mode not built yet: " + prop)
+	f, ok := props[prop]
+	if !ok {
+		fmt.Fprintln(os.Stderr, "no generator for property", prop)
+		os.Exit(2)
+	}
+	f(g, n)
 }
 
 func apiCall(drm uint8, op string, args []string) {}
